@@ -120,8 +120,9 @@ class CLCKGen:
 			# Create UDP payload
 			payload = "IND CLOCK %u\0" % self.clck_src
 
-			# Send indication to all UDP links
-			for link in self.clck_links:
+			# Send indication to all UDP links (iterate over a snapshot: the list
+			# is changed by POWERON / POWEROFF handled in another thread)
+			for link in list(self.clck_links):
 				link.send(payload)
 
 			# Debug print
